@@ -152,7 +152,10 @@ func (r *Rearranger) AddLocation(ipnet *net.IPNet, locID []byte) error {
 		return err
 	}
 
-	if firstIPv6.EqualToNetIP(ipnet.IP.To16()) {
+	_, maskBits := ipnet.Mask.Size()
+	isDefaultIPv6 := maskLen == 0 && maskBits == 8*net.IPv6len
+	isDefaultIPv4 := (maskLen == 0 && maskBits == 8*net.IPv4len) || (maskLen == 8*(net.IPv6len-net.IPv4len) && maskBits == 8*net.IPv6len)
+	if isDefaultIPv6 && firstIPv6.EqualToNetIP(ipnet.IP.To16()) {
 		// it is ::/0
 		r.hasDefaultIPv6Range = true
 		defaultIPv6Location := rangeLocation{
@@ -170,7 +173,7 @@ func (r *Rearranger) AddLocation(ipnet *net.IPNet, locID []byte) error {
 			pointKind:  pointKindStart,
 			location:   defaultIPv6Location,
 		})
-	} else if firstIPv4.EqualToNetIP(ipnet.IP.To16()) {
+	} else if isDefaultIPv4 && firstIPv4.EqualToNetIP(ipnet.IP.To16()) {
 		// it is 0.0.0.0/0
 		r.hasDefaultIPv4Range = true
 		r.points = append(r.points, &RangePoint{
